@@ -87,6 +87,116 @@ def has_revisit(body, parts, drv_results, model_stream):
     return True
 
 
+# ------------------------------------------------- bodies that change the depth of a deep stack
+
+def _l(v):
+    return ("lit", v, "dec")
+
+
+def _w(*ws):
+    return [("word", w) for w in ws]
+
+
+def _sub(*nodes):
+    return ("sub", True, (), ("cat", list(nodes)))
+
+
+NRULES = 1500
+
+
+def deep_programs():
+    """Stacks 4-9 deep whose depth and slot types vary inside one closure run (the seen-set has to order
+    stacks of different depth and of different types below the four slots of the cached profile)."""
+    outs = []
+    lt = lambda k: _sub(*(_w("dup") + [_l(k)] + _w("?lt")))
+    gt0 = _sub(*(_w("dup") + [_l(0)] + _w("?gt")))
+    is_c = _sub(*(_w("type", "T_CONST", "?eq")))
+    is_s = _sub(*(_w("type", "T_STR", "?eq")))
+    eq = lambda k: _sub(*(_w("dup") + [_l(k)] + _w("?eq")))
+    push = lambda k: ("cat", [lt(k)] + _w("dup") + [_l(1)] + _w("add"))
+    drop = ("cat", [gt0] + _w("drop"))
+    bodies = []
+    for k in (2, 3, 4):
+        bodies.append(("updown%d" % k, ("alt", [push(k), drop])))
+        bodies.append(("updown-str%d" % k, ("alt", [("cat", [is_c, ("alt", [push(k), drop, ("cat", [eq(2), ("str", [b"s"], False)])])]),
+                                                   ("cat", [is_s] + _w("drop"))])))
+        bodies.append(("up-swap%d" % k, ("alt", [push(k), ("cat", [gt0] + _w("swap")), drop])))
+    bases = [[_l(0)] * 4, [_l(0)] * 5, [_l(0), ("str", [b"a"], False), _l(0), _l(0), _l(0)], [_l(7), _l(0), _l(0), _l(0), _l(0), _l(0)],
+             [("elist",), _l(1), ("str", [b"x"], False), _l(0), _l(0)]]
+    for bn, body in bodies:
+        for bi, base in enumerate(bases):
+            for op in ("star", "plus"):
+                outs.append(("%s/base%d/%s" % (bn, bi, op), ("cat", base + [(op, body)]), body))
+                # two start stacks in a row
+                outs.append(("%s/base%d/%s/2" % (bn, bi, op), ("cat", base[:-1] + [("alt", [_l(0), _l(1)]), (op, body)]), body))
+    return outs
+
+
+def random_rule_tables(seed, n):
+    """Random successor tables over the top of a deep stack: a rule `(== k) ACTION` replaces TOS k by a larger
+    value v, optionally pushing a string or a sequence below it (depth + 1), keeping k below it (depth + 1) or
+    dropping one more slot (depth - 1).  Values only grow, so the reachable set is finite; depth and slot types
+    vary, and many stacks are reachable along several routes."""
+    outs = []
+    for t in range(n):
+        r = random.Random((seed << 20) ^ t ^ 0xD10)
+        nv = r.choice([7, 9, 10])
+        acts = r.choice([["replace", "push", "str", "drop2"], ["replace", "push", "str", "drop2", "seq"], ["push", "str", "drop2", "seq"]])
+        rules = []
+        for k in range(0, nv):
+            for _ in range(r.randint(1, r.choice([2, 3, 4]))):
+                v = r.randint(k + 1, nv)
+                act = r.choice(acts)
+                guard = ("infix", ("nop",), "==", _l(k))
+                if act == "replace":
+                    rules.append(("cat", [guard] + _w("drop") + [_l(v)]))
+                elif act == "push":
+                    rules.append(("cat", [guard, _l(v)]))
+                elif act == "str":
+                    rules.append(("cat", [guard] + _w("drop") + [("str", [b"s"], False), _l(v)]))
+                elif act == "seq":
+                    rules.append(("cat", [guard] + _w("drop") + [("elist",), _l(v)]))
+                else:
+                    rules.append(("cat", [guard] + _w("drop", "drop") + [_l(v)]))
+        body = ("alt", rules)
+        depth = r.choice([4, 5, 5, 6, 9])
+        base = [r.choice([_l(0), _l(0), _l(0), ("str", [b"b"], False), ("elist",)]) for _ in range(max(0, depth - 4))] + [_l(0)] * min(4, depth)
+        op = r.choice(["star", "plus"])
+        outs.append(("rules%d/%s" % (t, op), ("cat", base + [(op, body)]), body))
+    return outs
+
+
+def work_deep(task):
+    lo, hi, seed = task
+    ev = Evidence()
+    drv = Driver()
+    try:
+        for name, node, body in (deep_programs() + random_rule_tables(seed, NRULES))[lo:hi]:
+            nb = G.count_nodes(body)
+            try:
+                o = run_case(drv, node, (), limit=6000, steps_fn=lambda s: 10000 + 200 * max(1, len(s.items)) * nb)
+            except DriverCrash as e:
+                ev.violations.append({"property": PID, "query": render(node), "ast": repr(node), "reason": "driver crashed: " + e.report[-2500:],
+                                      "signature": "C10:deep-crash:" + name})
+                continue
+            except DriverTimeout:
+                ev.violations.append({"property": PID, "query": render(node), "ast": repr(node), "reason": "watchdog: no reply although the model finishes",
+                                      "signature": "C10:deep-hang:" + name})
+                continue
+            if o.status == "inconclusive":
+                ev.inconc(o.reason.split(":")[0][:50])
+                continue
+            ev.case(key=("deep", name), nontrivial=True)
+            ev.label("deep-stack-closure")
+            if o.status == "violation":
+                ev.violations.append({"property": PID, "query": o.text, "ast": repr(node), "reason": "%s [%s]" % (o.reason, name), "signature": "C10:deep:" + name})
+            elif len(ev.samples) < 4:
+                ev.sample({"query": o.text, "results": len(o.stream.items)})
+    finally:
+        drv.kill()
+    return ev
+
+
 def work_model(task):
     seed, start, count = task
     ev = Evidence()
@@ -298,6 +408,9 @@ def main(tier, seed):
     ev = Evidence()
     per = max(50, n // 48)
     ev.merge(run_pool(work_model, [(seed, s, min(per, n - s)) for s in range(0, n, per)]))
+    nd = len(deep_programs()) + len(random_rule_tables(seed, NRULES))
+    ev.merge(run_pool(work_deep, [(lo, lo + 16, seed) for lo in range(0, nd, 16)]))
+    ev.extra["deep_stack_programs"] = nd
     files = SAMPLES if tier == "quick" else sorted(set(SAMPLES + [os.path.basename(f) for f in glob.glob("/repo/tests/*.o")]))
     ev.merge(run_pool(work_dwarf, [(f, raw) for f in files for raw in (True, False)]))
     ev.extra["closure_programs"] = n
@@ -308,6 +421,7 @@ def main(tier, seed):
                   health={"cyclic graphs seen": ev.labels.get("graph-with-cycle-or-diamond", 0) > 100,
                           ">=2 start stacks": sum(ev.labels.get("starts:%d" % k, 0) for k in (2, 3, 4)) > 100,
                           "laws checked": ev.labels.get("law:E+=distinct(E E*)", 0) > 50,
+                          "deep-stack closures": ev.labels.get("deep-stack-closure", 0) > 100,
                           "dwarf graphs checked": sum(1 for k in ev.labels if k.startswith("dwarf-file:")) >= 4})
 
 
